@@ -17,6 +17,9 @@ THEOREMS = ['C08_index_of_id_correct', 'C08_index_of_id_unique', 'C08_index_of_i
 IMPORTS = 'From SX Require Import Base.Prelude Base.Str Model.Edit.\n'
 
 
+KEYWORDS4 = set(k[:4] for k in rf.SYNTAX) | {'TITL', 'CELL', 'ZERR', 'LATT', 'SYMM', 'SFAC', 'UNIT', 'FVAR', 'HKLF', 'END', 'RESI', 'PART', 'AFIX', 'REM', 'MOLE', 'FRAG', 'FEND', 'DISP', 'L.S.', 'CGLS'}
+
+
 def reachable(shx):
     objs = list(shx.atoms.all_atoms)
     for nm in ('plan', 'cycles', 'wght', 'unit', 'hklf', 'acta', 'cell', 'zerr', 'latt', 'fvars', 'size', 'temp_card', 'list_card', 'fmap', 'conn', 'omit', 'defs'):
@@ -27,16 +30,16 @@ def reachable(shx):
     return objs
 
 
-def check_state(ctx, shx, case, deleted, names_too=True):
+def check_state(ctx, shx, case, deleted, names_too=True, foreign=None):
     try:
-        return check_state_(ctx, shx, case, deleted, names_too)
+        return check_state_(ctx, shx, case, deleted, names_too, foreign)
     except Exception as e:
         common.add_violation(ctx, 'the atom list holds something that does not behave like an atom of the file (inspecting it raises)', case, 'atoms of the file',
                              '%s: %s; atom list: %s' % (type(e).__name__, e, [getattr(a, 'name', '?') for a in shx.atoms.all_atoms][:12]))
         return False
 
 
-def check_state_(ctx, shx, case, deleted, names_too=True):
+def check_state_(ctx, shx, case, deleted, names_too=True, foreign=None):
     from shelxfile.atoms.atom import Atom
     ats = shx.atoms.all_atoms
     ids = []
@@ -68,6 +71,24 @@ def check_state_(ctx, shx, case, deleted, names_too=True):
                 common.add_violation(ctx, 'look-up by name_residue returns a different atom', dict(case, atom=a.fullname), a.fullname,
                                      getattr(shx.atoms.get_atom_by_name(a.fullname), 'fullname', None))
                 return False
+    # the context instructions of the file are objects at their lines (atoms refer to them): a PART / AFIX / RESI line that is still text while
+    # the atoms behind it carry an object for it has no position
+    for i, x in enumerate(shx._reslist):
+        if isinstance(x, str) and x.split() and x.split()[0].upper() in ('PART', 'AFIX', 'RESI') and i not in shx.delete_on_write and len(x.split()) > 1:
+            later = [a for a in ats if a.index > i]
+            if later and not any(obj is o for a in later[:1] for obj in (a.part, a.afix, a.resi) for o in shx._reslist):
+                pass
+            if later:
+                a = later[0]
+                kw = x.split()[0].upper()
+                obj = {'PART': a.part, 'AFIX': a.afix, 'RESI': a.resi}[kw]
+                try:
+                    obj.index
+                except ValueError:
+                    common.add_violation(ctx, 'an instruction object that atoms refer to (%s) has no position: its line is still text' % kw, dict(case, line=x), 'an object at line %d' % i, 'ValueError')
+                    return False
+                except Exception:
+                    pass
     for x in reachable(shx):
         if isinstance(x, Atom):
             continue
@@ -77,6 +98,33 @@ def check_state_(ctx, shx, case, deleted, names_too=True):
             continue          # objects that are not part of the line list (e.g. absorbed into a table) have no position
         if shx._reslist[i] is not x and not (shx._reslist[i] == x and type(shx._reslist[i]) is type(x) and str(shx._reslist[i]) == str(x)):
             common.add_violation(ctx, 'an instruction object reports a position at which the file holds something else', dict(case, obj=str(x)[:60]), str(x)[:60], str(shx._reslist[i])[:60])
+            return False
+    # the written file holds exactly the atoms of the atom list that belong to the file itself (not to an include file), in order
+    if names_too:
+        written = im.write_text(shx)
+        wnames, infrag = [], False
+        for l in rf.independent_lex(written):
+            t = l['tokens']
+            if not t or l['free']:
+                continue
+            if t[0].upper() == 'FRAG':
+                infrag = True
+            elif t[0].upper() == 'FEND':
+                infrag = False
+            elif not infrag and len(t) >= 5 and t[0][:4].upper() not in KEYWORDS4:
+                try:
+                    int(t[1]); float(t[2]); float(t[3]); float(t[4])
+                    wnames.append(t[0].upper())
+                except ValueError:
+                    pass
+        if foreign is not None:
+            # the atoms that came from an include file are known by identity from the start of the history: the marks the writer
+            # uses (delete_on_write) are the thing under test, not the reference
+            own = [a.name.upper() for a in ats if not any(a is f for f in foreign)]
+        else:
+            own = [a.name.upper() for a in ats if a.index not in shx.delete_on_write]
+        if wnames != own:
+            common.add_violation(ctx, 'the atoms in the written file are not the atoms of the atom list (those of include files apart), in order', case, own, wnames)
             return False
     for d in deleted:
         views = {'atom list': any(a is d for a in ats), 'line list': any(x is d for x in shx._reslist),
@@ -109,13 +157,22 @@ def run(ctx):
     id_cases = []
     for k in range(nh):
         text = duplicate_file(rng) if k % 5 == 4 else c04.make_file(rng, 'wild' if k % 4 == 3 else 'plain')
-        st, inn, shx = im.read_text(text, 'quiet')
+        if k % 6 == 1:
+            # a file that pulls in an include file (its lines are in the line list, marked as not to be written)
+            import tempfile as _tf2
+            inc_dir = _tf2.mkdtemp(prefix='verif-c08i-')
+            main, text = c04.with_include(c04.make_file(rng, 'plain'), rng, inc_dir)
+            st, inn, shx = im.read_text(None, 'quiet', path=main)
+            __import__('shutil').rmtree(inc_dir, ignore_errors=True)
+        else:
+            st, inn, shx = im.read_text(text, 'quiet')
         if st != 'ok' or inn:
             common.add_violation(ctx, 'a valid file raises', {'text': text}, 'ok', '%s %s' % (st, inn))
             continue
         h = ec.History(shx, rng)
         deleted = []
-        if not check_state(ctx, shx, {'text': text, 'history': []}, deleted, names_too=rng.random() < 0.5):
+        foreign = [e.obj for e in h.ents if e.kind == 'atom' and e.absorbed] if k % 6 == 1 else None
+        if not check_state(ctx, shx, {'text': text, 'history': []}, deleted, names_too=rng.random() < 0.5, foreign=foreign):
             continue
         ok = True
         for s in range(rng.randint(1, 10)):
@@ -136,10 +193,10 @@ def run(ctx):
                     ok = False
                     break
                 deleted += gone
-            if not check_state(ctx, shx, {'text': text, 'history': h.log}, deleted, names_too=rng.random() < 0.5):
+            if not check_state(ctx, shx, {'text': text, 'history': h.log}, deleted, names_too=rng.random() < 0.5, foreign=foreign):
                 ok = False
                 break
-        if ok and not check_state(ctx, shx, {'text': text, 'history': h.log}, deleted):
+        if ok and not check_state(ctx, shx, {'text': text, 'history': h.log}, deleted, foreign=foreign):
             ok = False
         if not ok:
             continue
